@@ -114,6 +114,13 @@ func checkQRAlnumPair(c *Ctx, r *Report) {
 
 func errCtorHook(rr *rpf, cl *ast.CallExpr, callee types.Object) (*Val, bool) {
 	if f, ok := callee.(*types.Func); ok && (strings.Contains(f.Name(), "Exception") || f.Name() == "New" || f.Name() == "Errorf") {
+		// (a constructor of an error value: one result that is not a plain bool / number / string - a predicate such
+		// as isFormatException(e) bool is an ordinary function)
+		if sig, ok := f.Type().(*types.Signature); ok && sig.Results().Len() == 1 {
+			if _, basic := sig.Results().At(0).Type().Underlying().(*types.Basic); basic {
+				return nil, false
+			}
+		}
 		return vstr("error"), true
 	}
 	return nil, false
